@@ -25,7 +25,11 @@ Inductive op :=
 | Response (ref : option N)      (* ProcessResponseForMsgCounterReference *)
 | Notify (p : N)                 (* Notify with payload id p *)
 | Other (k : N)                  (* Reply / result / Write: takes a counter, no cache *)
-| Lookup (c : N).                (* DatagramForMsgCounter *)
+| Lookup (c : N)                 (* DatagramForMsgCounter *)
+| Burst (ks : list N).           (* overlapping Reply / result / Write calls of kinds ks from as many goroutines:
+                                    each takes its counter in one atomic step (atomic.AddUint64), so every
+                                    interleaving hands out the same set of counters; the runner pairs the
+                                    counters, sorted, with the kinds in the order given *)
 
 Inductive obs :=
 | Written (c k p : N)            (* datagram handed to the connection writer *)
@@ -74,6 +78,18 @@ Definition lru_get (c : N) (l : list (N * N)) : option N * list (N * N) :=
   | None => (None, l)
   end.
 
+Fixpoint burst_obs (c : N) (ks : list N) : list obs :=
+  match ks with
+  | [] => []
+  | k :: r => Written (N.succ c) k 0%N :: burst_obs (N.succ c) r
+  end.
+
+Fixpoint burst_ctr (c : N) (ks : list N) : N :=
+  match ks with
+  | [] => c
+  | _ :: r => burst_ctr (N.succ c) r
+  end.
+
 Definition step (s : st) (o : op) : st * list obs :=
   match o with
   | Request h =>
@@ -98,6 +114,9 @@ Definition step (s : st) (o : op) : st * list obs :=
       let '(r, l) := lru_get c (lru s) in
       ({| ctr := ctr s; reqs := reqs s; lru := l; space := space s |},
        [match r with Some p => Found p | None => NotFound end])
+  | Burst ks =>
+      ({| ctr := burst_ctr (ctr s) ks; reqs := reqs s; lru := lru s; space := space s |},
+       burst_obs (ctr s) ks)
   end.
 
 (* run a history, collecting the trace *)
@@ -119,6 +138,7 @@ Definition parse_op (l : list Z) : option op :=
   | [2; p] => Some (Notify (Nz p))
   | [3; k] => Some (Other (Nz k))
   | [4; c] => Some (Lookup (Nz c))
+  | 5 :: ks => Some (Burst (map Nz ks))
   | _ => None
   end.
 
